@@ -71,6 +71,8 @@ type Path struct {
 	concRun   int
 	noStubs   bool
 	cutOff    bool
+	globalBase   string // baseline of the global-state assertion after synchronised writes
+	globalsDirty bool
 	dom       map[int32]*[4]uint64
 	multi     map[int32]bool
 	allMulti  bool
@@ -636,6 +638,7 @@ func (w *Worker) runPath(it WorkItem) (res PathResult) {
 	w.p = p
 	w.depth = 0
 	w.pools = map[*Value][]Value{}
+	w.lockDepth = 0
 	for k := range w.ts.bind {
 		delete(w.ts.bind, k)
 	}
@@ -684,6 +687,14 @@ func (w *Worker) runPath(it WorkItem) (res PathResult) {
 		if len(p.violations) > 0 {
 			res.Outcome = "violation"
 		}
+		if r != nil {
+			// a path that ended early must not leave modified package-level state behind
+			if _, isPE := r.(pathEnd); isPE || res.Outcome == "violation" {
+				if w.snapshotGlobals() != w.globalSnap {
+					w.reinit()
+				}
+			}
+		}
 		res.Violations = p.violations
 		res.Witness = w.renderNondet(p.model)
 		if res.Outcome == "ok" {
@@ -699,9 +710,15 @@ func (w *Worker) runPath(it WorkItem) (res PathResult) {
 		panic(fmt.Sprintf("replay divergence: path ended after %d decisions, %d forced", len(p.decisions), len(p.forced)))
 	}
 	// frozen global state must be unchanged
-	if snap := w.snapshotGlobals(); snap != w.globalSnap {
-		w.violation("fail", "global-state-modified", diffSnap(w.globalSnap, snap), nil, nil, p.model)
+	base := w.globalSnap
+	if p.globalBase != "" {
+		base = p.globalBase
+	}
+	if snap := w.snapshotGlobals(); snap != base {
+		w.violation("fail", "global-state-modified", diffSnap(base, snap), nil, nil, p.model)
 		w.reinit()
+	} else if p.globalsDirty {
+		w.reinit() // synchronised writes happened: start the next path from pristine state
 	}
 	return
 }
